@@ -272,6 +272,20 @@ func worker(i, n int, out, id, tier string) (code int) {
 		os.Stdout = dn
 	}
 	log.SetOutput(io.Discard)
+	// watchdog: a call under test that never returns must not turn into a check that never ends
+	finished := make(chan struct{})
+	go func() {
+		grace := time.Until(c.Deadline) + 150*time.Second
+		select {
+		case <-finished:
+		case <-time.After(grace):
+			rep := Report{Counters: map[string]int64{}, Exhaustive: false, Cap: "worker watchdog",
+				HarnessErr: fmt.Sprintf("worker %d did not finish within its deadline plus 150 s: a call under test did not return (hang) and could not be attributed", i)}
+			b, _ := json.Marshal(rep)
+			os.WriteFile(out, b, 0o644)
+			os.Exit(0)
+		}
+	}()
 	func() {
 		defer func() {
 			if r := recover(); r != nil {
@@ -280,6 +294,7 @@ func worker(i, n int, out, id, tier string) (code int) {
 		}()
 		ck.Run(c)
 	}()
+	close(finished)
 	b, err := json.Marshal(c.Rep)
 	if err != nil {
 		// never lose a worker's verdict to an unencodable value
